@@ -46,10 +46,24 @@ impl UvMapping {
     ///
     /// returns: Option<(usize, [f64; 3])>
     pub fn triangle(&self, point: &Point2) -> Option<(usize, [f64; 3])> {
+        // The 2D mesh has to be queried as solid: otherwise a point inside a triangle is projected
+        // onto the nearest edge of that triangle. In 2D the location of an interior point carries
+        // no barycentric coordinates, so they are computed from the triangle found.
         let result = self
             .tri_map
-            .project_local_point_and_get_location(point, false);
+            .project_local_point_and_get_location(point, true);
         let (_, (t_id, loc)) = result;
-        Some((t_id as usize, loc.barycentric_coordinates().unwrap()))
+        let bc = match loc.barycentric_coordinates() {
+            Some(bc) => bc,
+            None => {
+                let tri = self.tri_map.triangle(t_id);
+                let (v0, v1, v2) = (tri.b - tri.a, tri.c - tri.a, point - tri.a);
+                let det = v0.x * v1.y - v0.y * v1.x;
+                let b = (v2.x * v1.y - v2.y * v1.x) / det;
+                let c = (v0.x * v2.y - v0.y * v2.x) / det;
+                [1.0 - b - c, b, c]
+            }
+        };
+        Some((t_id as usize, bc))
     }
 }
